@@ -666,7 +666,7 @@ func (i *interpreter) obligation(c *Term, id string, kind string, msg string) {
 	if d, ok := i.nextRecorded(); ok {
 		// replayed prefix: the verdict was obtained by the path that first got here
 		if c.isFalse() {
-			panic(abortPath{"violated", id})
+			return
 		}
 		if d == 3 {
 			i.assume(c, "violated")
@@ -709,9 +709,12 @@ func (i *interpreter) obligation(c *Term, id string, kind string, msg string) {
 		i.stats.Inconclusive++
 		i.inconclusive(id)
 	}
-	// continue under the assumption that the assertion held
+	// continue under the assumption that the assertion held; a concretely
+	// false assertion changes nothing on the path, which simply goes on (the
+	// native replay also records the failure and continues).
 	if c.isFalse() {
-		panic(abortPath{"violated", id})
+		i.record(5)
+		return
 	}
 	if r == "sat" {
 		i.record(3)
@@ -735,6 +738,8 @@ type sharedResults struct {
 	counts       map[string]int
 	inconclusive map[string]int
 	witnesses    []Violation // passing-path models for native validation
+	concolic     []Violation // inputs of unsupported paths, executed natively (sampling)
+	concolicBy   map[string]int
 	maxPer       int
 }
 
@@ -747,6 +752,20 @@ func (i *interpreter) reportViolation(v Violation) {
 	if len(sr.violations[v.AssertID]) < sr.maxPer {
 		sr.violations[v.AssertID] = append(sr.violations[v.AssertID], v)
 	}
+}
+
+func (i *interpreter) wantConcolic(reason string) bool {
+	sr := i.shared
+	sr.mu.Lock()
+	defer sr.mu.Unlock()
+	if sr.concolicBy == nil {
+		sr.concolicBy = map[string]int{}
+	}
+	if sr.concolicBy[reason] >= 8 {
+		return false
+	}
+	sr.concolicBy[reason]++
+	return true
 }
 
 func (i *interpreter) alreadyViolated(id string) bool {
@@ -823,7 +842,8 @@ func (i *interpreter) runPath(prefix []int32) {
 	for k := range i.path.reached {
 		st.Reached[k]++
 	}
-	if len(st.Samples) < 6 || (end == "complete" && i.witnessLeft > 0) {
+	concolic := end == "unsupported" && i.wantConcolic(endReason)
+	if len(st.Samples) < 6 || (end == "complete" && i.witnessLeft > 0) || concolic {
 		// produce a model of this path for the evidence samples / native validation
 		if r, vals := i.checkSat(nil, i.opts.FeasTimeoutMs, true); r == "sat" {
 			vec := i.vectorFrom(vals)
@@ -834,6 +854,13 @@ func (i *interpreter) runPath(prefix []int32) {
 				i.witnessLeft--
 				i.shared.mu.Lock()
 				i.shared.witnesses = append(i.shared.witnesses, Violation{Harness: i.harness, Kind: "witness", Vector: vec})
+				i.shared.mu.Unlock()
+			}
+			if concolic {
+				// concolic fallback: the path left the encodable fragment; one
+				// solver-chosen input of it is executed natively by the driver.
+				i.shared.mu.Lock()
+				i.shared.concolic = append(i.shared.concolic, Violation{Harness: i.harness, Kind: "concolic", Message: endReason, Vector: vec})
 				i.shared.mu.Unlock()
 			}
 		}
